@@ -1006,4 +1006,19 @@ Section Out.
     pose proof (ExportViewC.ribout_is_export_view_partial P apply (sc_sess P c) (sc_exp P c) (ss_hist P s) HG HE p) as HP.
     rewrite <- (N2Nat.id p) in HP at 3. rewrite Hview in HP. unfold lpfx. exact HP.
   Qed.
+
+  (* after SessionDown i nothing learned from i is a candidate, nor shown to any session *)
+  Theorem session_down_removes_contribution : forall evs i c s,
+    distinct_peers P cfgs ->
+    nth_error cfgs i = Some c -> nth_error (ps_sess P (prun evs)) i = Some s -> ss_up P s = false ->
+    forall (p : N) (x : path),
+      (In x (candidates P (prun evs) p) -> src_of x <> Some (sc_ip P c)) /\
+      (forall o, In x (visible o (ps_loc P (prun evs)) (lpfx p)) -> src_of x <> Some (sc_ip P c)).
+  Proof.
+    intros evs i c s DP Hc Hs Hd p x.
+    assert (G : In x (candidates P (prun evs) p) -> src_of x <> Some (sc_ip P c)).
+    { intros Hx. exact (no_candidate_of_down_session P apply sel tagf Hsel cfgs evs i c s p x DP Hc Hs Hd Hx). }
+    split; [exact G|]. intros o Hx. apply G. unfold visible in Hx. apply in_map_iff in Hx. destruct Hx as [e [<- He]].
+    unfold candidates. apply in_map. eapply (limit_slice_incl o); exact He.
+  Qed.
 End Out.
